@@ -52,6 +52,7 @@ theorem Bnd_closed (B : Nat → Nat) : Closed (Bnd B) where
   hookLate := fun e pid hook h => ⟨⟨h.1.park, h.1.specs, h.1.held⟩, h.2⟩
   hookEarly := fun e id hook h => ⟨⟨h.1.park, h.1.specs, h.1.held⟩, h.2⟩
   level := fun e l h => ⟨⟨h.1.park, h.1.specs, h.1.held⟩, h.2⟩
+  hops := fun e l h => ⟨⟨h.1.park, h.1.specs, h.1.held⟩, h.2⟩
   obs := fun e o ho h => ⟨⟨h.1.park, h.1.specs, h.1.held⟩, h.2⟩
 
 theorem Bnd_addObs (B : Nat → Nat) (e : Eff) (o : Obs) (h : Bnd B e) : Bnd B (addObs e o) :=
@@ -79,6 +80,23 @@ def Eff.clearLate (e : Eff) (pid : Nat) : Eff :=
 @[simp] theorem clearLate_held (e : Eff) (i : Nat) : (e.clearLate i).ps.held = e.ps.held := rfl
 @[simp] theorem clearLate_obs (e : Eff) (i : Nat) : (e.clearLate i).ps.obs = e.ps.obs := rfl
 
+/-- the handler / process that runs now reads the `hops` its event was delivered with -/
+def Eff.setCur (e : Eff) (h : Nat) : Eff := { e with ps := { e.ps with cur := h } }
+
+@[simp] theorem setCur_specs (e : Eff) (h : Nat) : (e.setCur h).specs = e.specs := rfl
+@[simp] theorem setCur_cancels (e : Eff) (h : Nat) : (e.setCur h).cancels = e.cancels := rfl
+@[simp] theorem setCur_futs (e : Eff) (h : Nat) : (e.setCur h).ps.futs = e.ps.futs := rfl
+@[simp] theorem setCur_procs (e : Eff) (h : Nat) : (e.setCur h).ps.procs = e.ps.procs := rfl
+@[simp] theorem setCur_held (e : Eff) (h : Nat) : (e.setCur h).ps.held = e.ps.held := rfl
+@[simp] theorem setCur_obs (e : Eff) (h : Nat) : (e.setCur h).ps.obs = e.ps.obs := rfl
+@[simp] theorem setCur_nid (e : Eff) (h : Nat) : (e.setCur h).ps.nid = e.ps.nid := rfl
+@[simp] theorem setCur_hookOf (e : Eff) (h : Nat) : (e.setCur h).ps.hookOf = e.ps.hookOf := rfl
+@[simp] theorem setCur_late (e : Eff) (h : Nat) : (e.setCur h).ps.late = e.ps.late := rfl
+@[simp] theorem setCur_lateAtt (e : Eff) (h : Nat) : (e.setCur h).ps.lateAtt = e.ps.lateAtt := rfl
+
+theorem Bnd_setCur (B : Nat → Nat) (e : Eff) (h : Nat) (hb : Bnd B e) : Bnd B (e.setCur h) :=
+  ⟨⟨hb.1.park, hb.1.specs, hb.1.held⟩, hb.2⟩
+
 theorem Bnd_clearLate (B : Nat → Nat) (e : Eff) (i : Nat) (h : Bnd B e) : Bnd B (e.clearLate i) :=
   ⟨⟨h.1.park, h.1.specs, h.1.held⟩, h.2⟩
 
@@ -94,7 +112,8 @@ def segTerm (now : Nat) (e1 : Eff) (pid : Nat) (p1 : Proc) (rest : List Seg) : T
 
 /-- state in which the actions of the segment start: resume logged, `send` consumed -/
 def segStart (now : Nat) (e : Eff) (pid tag : Nat) (p : Proc) : Eff :=
-  (if p.started then addObs e (.resume now pid p.send tag) else e).setProc pid { p with started := true, send := .none }
+  ((if p.started then addObs e (.resume now pid p.send tag) else e).setProc pid
+    { p with started := true, send := .none }).setCur p.hops
 
 def segBody (now : Nat) (e : Eff) (pid tag : Nat) (p : Proc) (seg : Seg) (rest : List Seg) : Eff :=
   segTerm now (seg.acts.foldl (runAct now) (segStart now e pid tag p)) pid { p with started := true, send := .none } rest seg.term
@@ -291,6 +310,7 @@ theorem ProcsAre_closed (L : List Proc) : Closed (ProcsAre L) where
   hookLate := fun e pid hook h => h
   hookEarly := fun e id hook h => h
   level := fun e l h => h
+  hops := fun e l h => h
   obs := fun e o ho h => h
 
 theorem ProcsAre_length {L : List Proc} {e : Eff} (h : ProcsAre L e) : e.ps.procs.length = L.length := by
@@ -308,6 +328,7 @@ theorem segBody_bnd (B : Nat → Nat) (now : Nat) (e : Eff) (pid tag : Nat) (p :
     · rw [List.getElem?_eq_none h'] at hp; simp at hp
   have h0 : Bnd B (segStart now e pid tag p) := by
     unfold segStart
+    apply Bnd_setCur
     apply Bnd_setProc
     split
     · exact Bnd_addObs B _ _ h
